@@ -50,6 +50,10 @@ def eval_dag(program, provided):
         if isinstance(b, dict) and "const" in b and len(outs) == 1:
             values[ro.get(outs[0], outs[0])] = canon(b["const"])
             continue
+        if spec.get("gen") and len(outs) == 1:
+            # a generator node: the node's value is the LIST of what it yields (here: the three components of its term)
+            values[ro.get(outs[0], outs[0])] = list(term(spec["id"], 1, args)[0])
+            continue
         for o, v in zip(outs, term(spec["id"], len(outs), args)):
             values[ro.get(o, o)] = v
     return values, calls, unsat
